@@ -118,6 +118,7 @@ type Path struct {
 	ghost        map[string]value
 
 	lenient bool
+	mapOrderUsed int
 	facts   map[int]bool
 	models  []*cachedModel
 	cacheHits int
